@@ -38,7 +38,14 @@ def fracFloat? (s : String) : Option Float :=
 def decPssm (body : String) : Option (List (Nat × List Float)) :=
   (decStrs body).mapM fun e =>
     match e.splitOn "=" with
-    | [k, vs] => do let k ← k.toNat?; let vs ← (vs.splitOn "+").mapM tokFloat?; pure (k, vs)
+    | [k, vs] => do
+      let k ← k.toNat?
+      -- tokens are joined by `+`, and the decimal rendering of +Inf contains one: split before each `f:`
+      let toks := match vs.splitOn "+f:" with
+        | [] => []
+        | t :: rest => t :: rest.map fun r => "f:" ++ r
+      let vs ← toks.mapM tokFloat?
+      pure (k, vs)
     | _ => none
 
 def encPssm (t : List (Nat × List Float)) : String :=
